@@ -1939,6 +1939,19 @@ class Filter(Blockwise):
                         # was pushed into), so it doesn't line up with self.frame
                         return
                     return self.frame[self.predicate & predicate]
+        if isinstance(parent, Index) and self.frame._filter_passthrough_available(
+            self, dependents
+        ):
+            # An Index pushed into the filter leaves a copy of the filter behind for
+            # the other readers of the filtered rows (e.g. the predicate of a filter
+            # stacked on this one), and only one of the two copies would move further
+            # down.  Let the filter move first, same as for Projections below
+            if not isinstance(
+                self.frame, (FilterAlign, Filter)
+            ) or is_filter_pushdown_available(
+                self.frame, self, dependents, allow_reduction=False
+            ):
+                return
         if isinstance(parent, Projection):
             if self.frame._filter_passthrough_available(self, dependents):
                 # We can't push Projections through filters if the preceding operation
